@@ -11,6 +11,7 @@ For the duration of a ``with Injector(directory, crash_at, mode)`` block, ``io.o
 * mode 'torn'      -> for a write event, the first half of the chunk is written and pushed to the OS, then ``os._exit``;
                       other events behave like 'kill';
 * mode 'interrupt' -> ``KeyboardInterrupt`` is raised and Python unwinds normally (``with`` blocks close and flush).
+* mode 'ioerror'   -> ``TimeoutError`` (an ``OSError`` subclass) is raised instead: an interruption that error handling may swallow.
 
 With ``crash_at=None`` the injector only counts events (dry run).
 """
@@ -87,6 +88,9 @@ class Injector:
             self.fired = True
             if self.mode == "interrupt":
                 raise KeyboardInterrupt(f"injected at event {idx} ({kind} {name})")
+            if self.mode == "ioerror":
+                # an interruption that arrives as an OSError subclass (a watchdog alarm handler raising TimeoutError, EINTR, EIO ...)
+                raise TimeoutError(f"injected at event {idx} ({kind} {name})")
             if self.mode == "torn" and kind == "write" and f is not None and data:
                 try:
                     f.write(data[: max(1, len(data) // 2)])
